@@ -214,6 +214,12 @@ theorem pathDown_nodup {a : Nat} {t : RTree} {p : List Nat} (hwf : t.WF)
 @[simp] theorem edgesL_cons (i : Nat) (t : RTree) (ts : List RTree) :
     edgesL i (t :: ts) = (i, t.rid) :: (edges t ++ edgesL i ts) := by simp [edgesL]
 
+theorem edgesL_append (i : Nat) (l1 l2 : List RTree) :
+    edgesL i (l1 ++ l2) = edgesL i l1 ++ edgesL i l2 := by
+  induction l1 with
+  | nil => simp
+  | cons t ts ih => simp [ih]
+
 /-- end points of edges are nodes; the lower end point is never the root -/
 theorem edges_mem :
     (∀ t p x, (p, x) ∈ edges t → p ∈ ids t ∧ x ∈ idsL t.kids) ∧
